@@ -68,6 +68,7 @@ func genC14ExitRace(seed uint64, r *rng) *Scenario {
 		sc.Clients = append(sc.Clients, cl)
 	}
 	sc.Cfg = cfg
+	viaUnmarshal(r, sc, 1, 6)
 	nameOps(sc)
 	return sc
 }
@@ -275,6 +276,7 @@ func genC14(seed uint64) *Scenario {
 		}
 	}
 	sc.Cfg = cfg
+	viaUnmarshal(r, sc, 1, 6)
 	nameOps(sc)
 	return sc
 }
